@@ -836,6 +836,22 @@ func (lw *loopWorld) finish() {
 		return ids
 	}
 	lw.ioc.Dispatched = 0
+	// repeating schedules are cancelled first: their programs would keep starting new operations for ever, and "nothing
+	// moves any more" could never be reached
+	var reps []int
+	for _, o := range lw.ops {
+		if o.rep && !o.done {
+			if ob := lw.objs[o.obj]; ob != nil && !ob.closed {
+				reps = append(reps, o.obj)
+			}
+		}
+	}
+	sort.Ints(reps)
+	for i, k := range reps {
+		if i == 0 || reps[i-1] != k {
+			lw.exec([]string{"tcancel", strconv.Itoa(k)})
+		}
+	}
 	doneCount := func() int {
 		c := 0
 		for _, o := range lw.ops {
